@@ -8,7 +8,8 @@ FACTS = os.path.join(ROOT, "coq", "Gen", "FootprintFacts.v")
 
 
 def pre(tier, seed):
-    """Regenerate the call-graph / global-store facts from /repo's current source; the theorem file is re-checked against them."""
+    """Regenerate the call-graph / global-store / result-derived-from-parameter facts from /repo's current source; the theorem
+    file is re-checked against them."""
     repo = os.environ.get("VERIF_REPO", "/repo")
     hdir = os.path.join(ROOT, "harness")
     rc, out = sh(["go", "build", "-o", os.path.join(ROOT, "build", "footprint"), "./cmd/footprint"], cwd=hdir, env=GOENV, timeout=900)
@@ -44,8 +45,19 @@ def pre(tier, seed):
             while k in parent and len(chain) < 12:
                 k = parent[k]; chain.append(fns[k][0])
             offenders.append({"function": fns[i][0], "stores_to": fns[i][2], "reached_from": chain[::-1]})
+    # ... and for the copy primitives: which of them hands out memory of its source (parameter 1)
+    rf = {}
+    m = re.search(r"fp_result_from : list \(N \* list N\) := \[(.*?)\n\]\.", new, re.S)
+    for e in re.finditer(r"\((\d+), \[([^\]]*)\]\)", m.group(1) if m else ""):
+        rf[int(e.group(1))] = [int(x) for x in e.group(2).split(";") if x.strip()]
+    prims = ("github.com/koykov/inspector.Bufferize", "github.com/koykov/inspector.BufferizeString",
+             "(*github.com/koykov/inspector.ByteBuffer).Bufferize", "(*github.com/koykov/inspector.ByteBuffer).BufferizeString")
+    handing_out = [{"function": fns[i][0], "results_may_be_derived_from_parameters": rf.get(i, []),
+                    "means": "the text a Copy/CopyTo stores into the destination may be the SOURCE's memory, not the buffer's"}
+                   for i in sorted(fns) if fns[i][0] in prims and 1 in rf.get(i, [])]
     return {"file": "coq/Gen/FootprintFacts.v", "functions": len(fns), "roots": len(roots), "reachable": len(seen),
-            "changed_since_commit": changed, "reachable_functions_storing_to_globals": offenders}
+            "changed_since_commit": changed, "reachable_functions_storing_to_globals": offenders,
+            "copy_primitives_handing_out_their_source": handing_out}
 
 
 def post(tier, seed, cov, result):
@@ -64,14 +76,21 @@ def post(tier, seed, cov, result):
     else:
         rounds = 6 if tier == "quick" else 60
         for i in range(rounds):
-            g, n = (8, 400) if i % 2 == 0 else (32, 120)
+            g, n = (8, 480) if i % 2 == 0 else (32, 144)
             p = subprocess.run([os.path.join(ROOT, "build", "racerun"), str(seed * 100 + i), str(g), str(n)],
                                stdout=subprocess.PIPE, stderr=subprocess.PIPE, env=dict(env, GORACE="halt_on_error=1 exitcode=66"))
             o = p.stdout.decode().strip()
             runs.append({"seed": seed * 100 + i, "goroutines": g, "ops_each": n, "out": o[:200], "rc": p.returncode})
             if p.returncode != 0:
-                problem = ("data race reported by the race detector" if p.returncode == 66 or b"DATA RACE" in p.stderr else "a call returned something else than when run alone") + \
-                          ": seed %d goroutines %d ops %d: %s %s" % (seed * 100 + i, g, n, o[:300], p.stderr.decode()[:1500])
+                race = p.returncode == 66 or b"DATA RACE" in p.stderr
+                problem = ("data race reported by the race detector" if race else
+                           "a call returned something else than when run alone, or a private value did not hold what its goroutine stored") + \
+                          ": seed %d goroutines %d ops %d: %s %s" % (seed * 100 + i, g, n, o[:600], p.stderr.decode()[:1500])
+                if race:
+                    # the same schedule seed once more without halting at the first report: which results / stored texts it costs
+                    q = subprocess.run([os.path.join(ROOT, "build", "racerun"), str(seed * 100 + i), str(g), str(n)],
+                                       stdout=subprocess.PIPE, stderr=subprocess.DEVNULL, env=dict(env, GORACE="halt_on_error=0 exitcode=0"))
+                    problem += "\n--- the same run not halted at the first report: " + q.stdout.decode().strip()[:800]
                 break
     cov["race_runs"] = runs
     cov["evaluations"] = sum(r["goroutines"] * r["ops_each"] for r in runs)
@@ -90,10 +109,15 @@ def post(tier, seed, cov, result):
 
 CHECK = Check(
     "C20", streams=[], pre=pre, post=post,
-    rule=("(a) call graph + stores to package-level variables re-extracted from /repo's current source (go/ssa, CHA) and the theorem "
-          "file re-checked against them; (b) exploration: 8 or 32 goroutines issue seeded random read operations on shared values "
+    rule=("(a) call graph, stores to package-level variables and 'a result may be derived from parameter p' facts re-extracted from "
+          "/repo's current source (go/ssa, CHA) and the theorem file re-checked against them; (b) exploration: 8 or 32 goroutines issue seeded random read operations on shared values "
           "through shared generated and built-in inspectors and write operations on private values with private buffers, built with "
-          "-race; every call's result is compared with the same goroutine running alone. distinct = distinct (seed, goroutines) run."),
+          "-race; private values are both built in place and DERIVED from shared templates (Copy, CopyTo with an own buffer, CopyTo into "
+          "an own Reset value; templates with text emptied in place - capacity kept -, empty strings, empty non-nil and nil slices and "
+          "maps, filled values) and then written with Set / SetWithBuffer of int, uint, float, bool, string, bytes values, appends through "
+          "Get references, Reset; every call's result is compared with the same goroutine running alone, and every private value must "
+          "hold what its goroutine stored there (checked after each write and once more after all writers have finished). "
+          "distinct = distinct (seed, goroutines) run."),
     assumptions=["the Go standard library, encoding/json and the runtime are outside the extracted graph (trusted)",
                  "CHA over-approximates interface and function-value calls; reflection-based calls do not occur in the module",
                  "data races below the granularity of a call cannot be exhibited by the model: they are the race detector's business",
